@@ -15,6 +15,9 @@ pub enum Case {
     Binary { a: NumSpec, b: NumSpec, ka: u8, kb: u8 },
     /// unary operators / functions of the container
     Unary { x: NumSpec, kind: u8 },
+    /// sum of three container values of kinds (k0, k1, k2) whose real parts are taken from a table where float
+    /// addition is not associative; must equal the left fold from zero, bit for bit
+    Sum3 { vals: [u8; 3], kinds: [u8; 3] },
     /// history: a sequence of float raisings (request list index, target order), EVERY earlier result kept
     /// alive, each result judged on its own (distinct requested names in first-appearance order, unit
     /// gradient, zero Hessian, value unchanged)
@@ -82,6 +85,20 @@ fn cases(tier: Tier) -> Vec<Case> {
                         continue;
                     }
                     out.push(Case::Binary { a: a.clone(), b: b.clone(), ka, kb });
+                }
+            }
+        }
+    }
+    // sums of three: every value triple x every kind triple
+    for v0 in 0..7u8 {
+        for v1 in 0..7u8 {
+            for v2 in 0..7u8 {
+                for kc in 0..27u8 {
+                    let kinds = [kc % 3, (kc / 3) % 3, kc / 9];
+                    if kinds == [0, 0, 0] && !(v0 < 2 && v2 < 2) {
+                        continue; // plain floats: a reduced set
+                    }
+                    out.push(Case::Sum3 { vals: [v0, v1, v2], kinds });
                 }
             }
         }
@@ -512,6 +529,36 @@ pub fn check(case: &Case, idx: u64, acc: &mut Acc) {
                 acc.sample(cj);
             }
         }
+        Case::Sum3 { vals, kinds } => {
+            const TBL: [f64; 7] = [1e16, -1e16, 1.0, 0.1, 0.2, 0.3, 1e308];
+            let mk = |i: usize| -> Number {
+                let v = TBL[vals[i] as usize];
+                match kinds[i] {
+                    0 => Number::F64(v),
+                    1 => Number::Dual(Dual::try_new(v, vec![u[i % 2].clone()], vec![1.5 + i as f64]).unwrap()),
+                    _ => Number::Dual2(Dual2::try_new(v, vec![u[i % 2].clone()], vec![1.5 + i as f64], vec![0.25]).unwrap()),
+                }
+            };
+            let mixed = kinds.contains(&1) && kinds.contains(&2);
+            let items: Vec<Number> = (0..3).map(mk).collect();
+            acc.eval();
+            if kinds.iter().any(|k| *k != kinds[0]) {
+                acc.nontrivial();
+            }
+            let got = guarded(|| items.clone().into_iter().sum::<Number>());
+            let want = guarded(|| &(&(&Number::F64(0.0) + &items[0]) + &items[1]) + &items[2]);
+            match (got, want, mixed) {
+                (Ok(v), _, true) => acc.violate("mixed/sum3", idx, cj(), json!("refusal"), json!(format!("{:?}", v))),
+                (Err(_), _, true) => {}
+                (Ok(v), Ok(w), false) => {
+                    acc.outcome(&(kind_of(&v), value_of(&v).to_bits()));
+                    if !same(&v, &w, &u) {
+                        acc.violate("sum3/differs-from-left-fold", idx, cj(), json!(format!("{:?}", w)), json!(format!("{:?}", v)));
+                    }
+                }
+                (g, w, false) => acc.violate("sum3/panic", idx, cj(), json!(format!("{:?}", w.is_ok())), json!(format!("{:?}", g.is_ok()))),
+            }
+        }
         Case::RaiseHistory { steps, clone_form } => {
             let mut alive: Vec<Number> = vec![];
             acc.nontrivial();
@@ -627,7 +674,7 @@ pub fn run(ctx: &Ctx, replay_file: Option<String>) -> ! {
          (kind, target-order) cells of set_order / set_order_clone with tag lists of length 0-2, every From conversion \
          (owned and borrowed) between f64, Dual, Dual2 and Number; every binary operator of the container (+ - * / %, \
          ==, partial_cmp, abs_sub, Sum; borrowed and owned forms; Number-f64 and f64-Number forms) on all 3x3 kind \
-         pairings of every ordered pair of numbers; every unary operator/function; == between the container and a bare float in both orders; EVERY sequence of 1..3 float raisings over 7 request lists (repeated names included) x 2 target orders with all earlier results kept alive. Oracle: the reference content by \
+         pairings of every ordered pair of numbers; every unary operator/function; == between the container and a bare float in both orders; sums of three container values over a 7-value table where float addition is not associative (1e16, -1e16, 1, 0.1, 0.2, 0.3, 1e308) x every kind triple against the left fold from zero; EVERY sequence of 1..3 float raisings over 7 request lists (repeated names included) x 2 target orders with all earlier results kept alive. Oracle: the reference content by \
          name for order changes; for arithmetic, bit-exact agreement (kind, value, every derivative by name) with the \
          same operator applied to the contained types; the two Dual/Dual2 arms must not return a value. Non-trivial: \
          order changes between different kinds, pairings of different kinds, unary ops on dual kinds.",
